@@ -123,3 +123,15 @@ func vStrASCII(maxLen int) string {
 	}
 	return string(b)
 }
+
+// vParam: a bound chosen by the check's tier (engine: -params; native: VERIF_PARAMS).
+func vParam(name string, def int) int {
+	for _, kv := range strings.Split(os.Getenv("VERIF_PARAMS"), ",") {
+		if strings.HasPrefix(kv, name+"=") {
+			n := 0
+			fmt.Sscanf(kv[len(name)+1:], "%d", &n)
+			return n
+		}
+	}
+	return def
+}
